@@ -39,6 +39,7 @@ def cases(draw, tier):
         case['length'] = draw(st.integers(0, n + 3))
     if simp == 'min_point_rdp':
         case['ts'] = draw(st.lists(S.thresholds(c['pts'], 'smape'), min_size=1, max_size=4))
+    case['np_int'] = draw(st.booleans())
     return case
 
 
@@ -50,6 +51,9 @@ def call_simplifier(case, rec, pts=None):
     n = len(p)
     bound = 4 * n + 16
     simp = case['simplifier']
+    length = case.get('length')
+    if length is not None and case.get('np_int'):
+        length = np.int64(length)        # sizes often arrive as NumPy integers (np.sum(mask), rng.integers, ...)
     if simp == 'rdp':
         return rec.call(bound, L.rdp.rdp, p, case['t'], S.distance_of(case['distance']),
                         S.metric_of(case['metric']), _site='rdp.rdp')
@@ -57,13 +61,13 @@ def call_simplifier(case, rec, pts=None):
         return rec.call(bound, L.rdp.grdp, p, case['t'], S.distance_of(case['distance']),
                         S.metric_of(case['metric']), S.order_of(case['order']), _site='rdp.grdp')
     if simp == 'rdp_fixed':
-        return rec.call(bound, L.rdp.rdp_fixed, p, case['length'], S.distance_of(case['distance']),
+        return rec.call(bound, L.rdp.rdp_fixed, p, length, S.distance_of(case['distance']),
                         S.order_of(case['order']), _site='rdp.rdp_fixed')
     if simp == 'mp_grdp':
-        return rec.call(bound, L.rdp.mp_grdp, p, case['t'], case['length'],
+        return rec.call(bound, L.rdp.mp_grdp, p, case['t'], length,
                         S.distance_of(case['distance']), S.metric_of(case['metric']),
                         S.order_of(case['order']), _site='rdp.mp_grdp')
-    return rec.call(bound, L.rdp.min_point_rdp, p, list(case['ts']), case['length'],
+    return rec.call(bound, L.rdp.min_point_rdp, p, list(case['ts']), length,
                     _site='rdp.min_point_rdp')
 
 
